@@ -38,9 +38,9 @@ type World struct {
 	Fset   *token.FileSet
 	Prog   *ssa.Program
 	Pkgs   []*packages.Package
-	Main   *ssa.Package // github.com/cloudwego/netpoll
-	Mux    *ssa.Package // .../mux
-	Runner *ssa.Package // .../internal/runner
+	Main   *ssa.Package             // github.com/cloudwego/netpoll
+	Mux    *ssa.Package             // .../mux
+	Runner *ssa.Package             // .../internal/runner
 	Funcs  []*ssa.Function          // every source function of the module (incl. anonymous)
 	byName map[string]*ssa.Function // "(*connection).Release", "malloc", "mux.(*ShardQueue).Add"
 	NFiles int
